@@ -10,7 +10,20 @@ SPECIALS = [10000, 10001, 10002, 10003, 10004]   # t = 0 (V = O) at the responde
 INVS = ("TypeOK", "Agreement", "BadPointRejected", "BadConfirmRejected", "FailClosed", "CrossImpl", "DhAgree")
 
 
+def _small_heaps(ctx, heap):
+    """core.Ctx.validate starts its JVMs with the default 6g heap; the state spaces here are a few hundred small
+    states, and a dozen such JVMs next to other checks got the machine's OOM killer going.  Cap the default."""
+    orig = ctx.tlc
+
+    def tlc(*a, **kw):
+        if kw.get("heap", "6g") == "6g":
+            kw["heap"] = heap
+        return orig(*a, **kw)
+    ctx.tlc = tlc
+
+
 def run(ctx):
+    _small_heaps(ctx, "1500m")
     out = os.path.join(ctx.scratch, "c08.ndjson")
     cf = list(cfgs.K_EC) + [dict(cfgs.K_SM3[2], label="sm3 " + cfgs.K_SM3[2]["label"])]
     for c in cf:                                   # build everything first: a build failure must not cost a TLC run
@@ -29,7 +42,7 @@ def run(ctx):
         groups = [("b%d" % b, list(range(49 * b, 49 * b + 49)) + (SPECIALS if b == 0 else []), 1, 1, 2) for b in range(7)]
         groups.append(("adv2", [0, 8, 16, 24, 32, 40, 48], 1, 2, 2))
         nshard_workers = 4
-        nrec, rec_shards = 240, 12
+        nrec, rec_shards = 240, 8
         nrec2, rec2_shards = 80, 8
     jobs, outs = [], []
     for name, ids, advmod, maxadv, nsh in groups:
@@ -39,7 +52,7 @@ def run(ctx):
                 continue
             o = "%s.%s.%d" % (out, name, i)
             outs.append(o)
-            jobs.append(dict(module="MC_C08", name="MC_C08_%s_%d" % (name, i), view="View", workers=nshard_workers, timeout=3000, heap="3g",
+            jobs.append(dict(module="MC_C08", name="MC_C08_%s_%d" % (name, i), view="View", workers=nshard_workers, timeout=3000, heap="2g",
                              constants=dict(Seed=ctx.seed, Ids=S(sub), AdvMod=advmod, MaxAdv=maxadv, LongAt=6, LongLen=8191,
                                             OutFile=core.tla_str(o)),
                              invariants=INVS))
